@@ -20,6 +20,7 @@ from .common import Case, Ob, require, val, elems, eq, le, lt, ge, gt, conj, dis
 from symx.core import ite, Sym, lor
 
 import agilerl.vector.pz_async_vec_env as av
+import agilerl.vector.pz_vec_env as pv
 from agilerl.vector.pz_async_vec_env import (AsyncPettingZooVecEnv, AsyncState, Observations, _async_worker, create_shared_memory,
                                              get_placeholder_value, process_transition, write_to_shared_memory)
 from agilerl.vector.pz_vec_env import PettingZooVecEnv
@@ -264,10 +265,11 @@ class ParentStep(Case):
     stubs = ("parent pipes = in-memory pipes pre-loaded with each worker's reply; instance created without spawning processes",)
     site = "AsyncPettingZooVecEnv.step"
 
-    def __init__(self, A, E, copy=True):
-        self.A, self.E, self.copy = A, E, copy
-        self.name = f"parent-step-A{A}-E{E}-{'copy' if copy else 'nocopy'}"
-        self.bounds = {"agents": A, "num_envs": E, "copy": copy, "symbolic": "actions, rewards, terminated / truncated flags in the workers' replies"}
+    def __init__(self, A, E, copy=True, action="discrete"):
+        self.A, self.E, self.copy, self.action = A, E, copy, action
+        self.name = f"parent-step-A{A}-E{E}-{'copy' if copy else 'nocopy'}" + ("" if action == "discrete" else f"-{action}-actions")
+        self.bounds = {"agents": A, "num_envs": E, "copy": copy, "actions": {"discrete": "Discrete(2) indices", "box1": "Box(shape=(1,)) reals", "box2": "Box(shape=(2,)) reals"}[action],
+                       "symbolic": "actions, rewards, terminated / truncated flags in the workers' replies, which info keys every sub-environment reports"}
 
     def run(self, v):
         A, E = self.A, self.E
@@ -280,29 +282,55 @@ class ParentStep(Case):
         R = {a: [v.real(f"rew_{a}_{j}") for j in range(E)] for a in agents}
         TE = {a: [v.bool(f"term_{a}_{j}") for j in range(E)] for a in agents}
         TR = {a: [v.bool(f"trunc_{a}_{j}") for j in range(E)] for a in agents}
-        pipes = [FakePipe((({a: R[a][j] for a in agents}, {a: TE[a][j] for a in agents}, {a: TR[a][j] for a in agents}, {a: {"env": j} for a in agents}), True))
+        # infos: every sub-environment reports "t"; whether it also reports "progress" (same agent, same call) is decided per env
+        has_prog = [bool(v.bool(f"reports_progress_{j}")) for j in range(E)]
+        infos = [{a: dict({"env": j, "t": 10 + j}, **({"progress": 20 + j} if has_prog[j] else {})) for a in agents} for j in range(E)]
+        pipes = [FakePipe((({a: R[a][j] for a in agents}, {a: TE[a][j] for a in agents}, {a: TR[a][j] for a in agents}, infos[j]), True))
                  for j in range(E)]
         env = object.__new__(AsyncPettingZooVecEnv)
         env.num_envs, env.agents, env.possible_agents, env.num_agents = E, list(agents), list(agents), A
         env.parent_pipes, env.processes, env.error_queue = pipes, [], ListQueue()
         env.observations = Observations(shm, obs_spaces, E)
         env.copy, env.closed, env._state = self.copy, False, AsyncState.DEFAULT
-        ACT = {a: v.array(f"act_{a}", (E,), "int") for a in agents}
-        for a in agents:
-            for x in ACT[a]:
-                v.assume(conj(x >= 0, x < 2), "discrete actions are valid indices (two actions)")
-        obs, rew, term, trunc, info = env.step(ACT)
+        if self.action == "discrete":
+            ACT = {a: v.array(f"act_{a}", (E,), "int") for a in agents}
+            for a in agents:
+                for x in ACT[a]:
+                    v.assume(conj(x >= 0, x < 2), "discrete actions are valid indices (two actions)")
+        else:
+            ACT = {a: v.array(f"act_{a}", (E, 1 if self.action == "box1" else 2)) for a in agents}      # continuous actions: any reals
+        from symx.shim import ShimInt
+        with patched(*([(pv, "int", ShimInt)] if v.mode != "real" else [])):
+            obs, rew, term, trunc, info = env.step(ACT)
         res = []
         for j in range(E):
             sent = pipes[j].sent
             ok = len(sent) == 1 and sent[0][0] == "step" and len(sent[0][1]) == A
             res.append(Ob(f"env{j}/receives-one-step-command-with-one-action-per-agent", ok))
-            if ok:
+            if ok and self.action == "discrete":
                 res.append(Ob(f"env{j}/gets-exactly-[actions[a][{j}] for a in agents]", conj(*[eq(sent[0][1][k], ACT[a][j]) for k, a in enumerate(agents)]), site=self.site + "/action-transposition"))
+            elif ok:
+                conds = []
+                for k, a in enumerate(agents):
+                    got, want = np.asarray(sent[0][1][k], dtype=object).reshape(-1), np.asarray(ACT[a][j], dtype=object).reshape(-1)
+                    conds.append(len(got) == len(want) and conj(*[eq(x, y) for x, y in zip(got, want)]))
+                res.append(Ob(f"env{j}/gets-its-own-continuous-actions-unaltered", conj(*conds), site=self.site + "/action-transposition"))
             for k, a in enumerate(agents):
                 res.append(Ob(f"env{j}/{a}/reward-termination-truncation-at-position-{j}-are-env-{j}'s",
                               conj(eq(rew[a][j], R[a][j]), eq(term[a][j], TE[a][j]), eq(trunc[a][j], TR[a][j])), site=self.site + "/assembly"))
                 res.append(Ob(f"env{j}/{a}/observation-at-position-{j}-is-env-{j}'s", same_obs(space, obs[a][j], obs_of(space, 100 * j + 10 * k)), site=self.site + "/assembly"))
+        # vectorised infos: position j holds env j's value where it reported the key, and the mask "_<key>" says exactly where
+        for a in agents:
+            ia = info.get(a, {}) if isinstance(info, dict) else {}
+            for key, reported, val_ in (("t", [True] * E, [10 + j for j in range(E)]), ("progress", has_prog, [20 + j for j in range(E)])):
+                if not any(reported):
+                    res.append(Ob(f"info/{a}/{key}/absent-when-nobody-reports-it", key not in ia, site=self.site + "/info"))
+                    continue
+                ok_i = key in ia and ("_" + key) in ia and len(ia[key]) == E and len(ia["_" + key]) == E
+                res.append(Ob(f"info/{a}/{key}/vectorised-with-its-mask", ok_i, site=self.site + "/info"))
+                if ok_i:
+                    res.append(Ob(f"info/{a}/{key}/mask-marks-exactly-the-environments-that-reported-it", all(bool(ia["_" + key][j]) == reported[j] for j in range(E)), site=self.site + "/info"))
+                    res.append(Ob(f"info/{a}/{key}/values-at-their-environment's-position", all(ia[key][j] == val_[j] for j in range(E) if reported[j]), site=self.site + "/info"))
         res.append(Ob("state-returns-to-default", env._state == AsyncState.DEFAULT))
         if self.copy:
             write_to_shared_memory(0, {a: obs_of(space, 777) for a in agents}, shm, obs_spaces)
@@ -397,7 +425,7 @@ class AutoResetWrapper(Case):
 def cases(tier):
     cs = [WorkerLoop("vector", 2, 2), WorkerLoop("image", 2, 1, E=3, index=2), WorkerLoop("dict", 2, 1), WorkerLoop("tuple", 1, 2, index=0),
           WorkerLoop("vector", 2, 1, absent=True), WorkerLoop("vector", 2, 1, continuous=True), WorkerLoop("vector", 2, 2, absent=True),
-          ParentStep(2, 2), ParentStep(3, 2, copy=False), ParentStep(1, 3),
+          ParentStep(2, 2), ParentStep(3, 2, copy=False), ParentStep(1, 3), ParentStep(2, 2, action="box1"), ParentStep(1, 2, action="box2"),
           ParentReset(2, 2, "int"), ParentReset(1, 3, "list"), ParentReset(2, 2, "none"),
           AutoResetWrapper(1), AutoResetWrapper(2)]
     if tier == "thorough":
